@@ -316,6 +316,81 @@ def cls_line(kind, xslot, prog, rows, fast=False):
         f" {c} {tok(x1)} {tok(x2)} {d}" for c, x1, x2, d in rows)
 
 
+def hist_case(g, rng):
+    """one evaluator object, a dataframe that changes under it (see harness `hist`)"""
+    r = rng
+    cls = r.chance(0.6)
+    prog = g.prog()
+    ops = []
+
+    def rowtxt(rows):
+        return f"{len(rows)}" + "".join(f" {c if cls else tok(c)} {tok(x1)} {tok(x2)} {d}" for c, x1, x2, d in rows)
+
+    if cls:
+        kind = r.choice(["dyn", "gau", "gau", "bin"])
+        ncl = 2 if kind == "bin" else r.choice([2, 2, 3, 4])
+
+        def rows_for(k, lo=1):
+            rows = g.cls_rows_structured(prog, k) if r.chance(0.5) else \
+                [(j % k, g.dbl(r.choice([0, 3, None])), g.dbl(r.choice([0, 3, None])), r.choice([0, 0, 2, r.below(50)]))
+                 for j in range(r.between(max(k, lo), 14))]
+            rows = rows[:40]
+            if len({c for c, _, _, _ in rows}) < k:      # every class present at least once
+                rows += [(c, float(c), 1.0, 0) for c in range(k)]
+            for j in range(len(rows) - 1, 0, -1):
+                k2 = r.below(j + 1)
+                rows[j], rows[k2] = rows[k2], rows[j]
+            return rows
+        more = ncl if kind == "bin" else ncl + r.choice([1, 1, 2])
+    else:
+        kind = r.choice(KINDS)
+
+        def rows_for(k, lo=1):
+            return g.rows(prog, r.between(lo, 14), r.chance(0.1))
+        ncl = more = 0
+    fast = r.chance(0.1)
+    shape = r.below(6)
+    first = rows_for(ncl)
+    if shape == 0:                       # built on the still EMPTY frame, filled later
+        ops = ["C", "L " + rowtxt(first), "V"]
+    elif shape == 1:                     # rows appended after a first evaluation
+        extra = [(c % max(ncl, 1) if cls else c, x1, x2, d) for c, x1, x2, d in rows_for(ncl)]
+        ops = ["L " + rowtxt(first), "C", "V", "A " + rowtxt(extra), "V"]
+    elif shape == 2:                     # the importer run again: MORE classes than at construction
+        ops = ["L " + rowtxt(first), "C", "V", "L " + rowtxt(rows_for(more)), "V"]
+    elif shape == 3:                     # rows erased (a whole class may disappear from the rows, not from the table)
+        ops = ["L " + rowtxt(first), "C", "V", f"E {r.between(1, max(1, len(first) - 1))}", "V"]
+    elif shape == 4:                     # built on the empty frame, then everything
+        second = rows_for(more)
+        extra = [(c % max(more, 1) if cls else c, x1, x2, d) for c, x1, x2, d in rows_for(more)]
+        ops = ["C", "V", "L " + rowtxt(first), "V", "L " + rowtxt(second), "V", "A " + rowtxt(extra), "V",
+               f"E {r.between(1, max(1, len(second) - 1))}", "V", "V"]
+    else:                                # FEWER classes in the rows than in the class table (reload of a subset)
+        sub = [x for x in first if x[0] != (ncl - 1)] if cls and ncl > 2 else first[:max(1, len(first) // 2)]
+        ops = ["L " + rowtxt(first), "C", "V", "L " + rowtxt(sub or first), "V", "V"]
+    return f"hist {'cls' if cls else 'reg'} {kind} {1 if fast else 0} {r.choice([1, 2, 10])} {prog} " + " ".join(ops)
+
+
+def big_cases(chk, rng, searching):
+    """scale-directed cases (n = 1e5+1, 2e5+1, 1e6 examples of which k = 1, 2 are wrong): tolerance-based shortcuts
+    (`almost_equal` has a RELATIVE tolerance of 1e-5) must not hide a handful of mistakes.  A short list in the quick
+    tier, every evaluator x size x k in the thorough tier and whenever a proof / the tie broke."""
+    kinds = ["dyn", "gau", "bin", "count", "mae", "mse", "rmae"]
+    if chk.tier == "quick" and not searching:
+        plan = [("dyn", 200001, 1), ("dyn", 100001, 1), ("gau", 200001, 1), ("bin", 200001, 2),
+                ("count", 200001, 1), ("mae", 100001, 1)]
+    else:
+        plan = [(k, n, w) for k in kinds for n in (100001, 200001, 1000000) for w in (1, 2)]
+    out = []
+    for kind, n, w in plan:
+        pos = set()
+        while len(pos) < w:
+            pos.add(5 * (2 * rng.below(n // 10 - 1) + 1))        # odd (class B) and a multiple of 5 (visited by fast())
+        fast = kind not in ("dyn", "gau", "bin") and rng.chance(0.5)
+        out.append(f"big {kind} {1 if fast else 0} {rng.choice([1, 2, 10])} {n} {w} " + " ".join(map(str, sorted(pos))))
+    return out
+
+
 def gen_cases(chk, rng):
     g = Gen(rng)
     quick = chk.tier == "quick"
@@ -403,6 +478,9 @@ def gen_cases(chk, rng):
         n = rng.between(100, 130) if fast else g.nrows(False)
         rows = g.rows(prog, n, rng.chance(0.1))
         lines.append(f"conp {ty} {pv} " + reg_line(kind, fast, prog, rows)[4:])
+    # histories: the dataframe changes under a living evaluator object
+    for _ in range(700 if quick else 6000):
+        lines.append(hist_case(g, rng))
     # test_evaluator: histories of calls on one object
     for _ in range(150 if quick else 1500):
         k = rng.between(1, 25)
@@ -479,6 +557,8 @@ def lean_request(line, cpp):
         return f"gac {t[1]} {t[2]} {t[5]}"
     if t[0] == "tev":
         return f"tev {t[1]} " + " ".join(t[3:])
+    if t[0] in ("big", "hist"):
+        return None                      # judged by the property's oracle only / expanded into plain cases
     return line   # ga / small: same request
 
 
@@ -713,17 +793,92 @@ def oracle(line, cpp, stats=None):
     return bad
 
 
-def evaluate(exe, lines, drv_ok):
-    cpp, deaths = C.run_lines(exe, lines)
-    reqs = [lean_request(lines[i], cpp[i]) if i < len(cpp) else None for i in range(len(lines))]
-    lean = None
-    if drv_ok:
-        idx = [i for i, r in enumerate(reqs) if r is not None]
-        ans = C.run_driver("c05_driver", [reqs[i] for i in idx])
-        lean = [None] * len(lines)
-        for k, i in enumerate(idx):
-            lean[i] = ans[k] if k < len(ans) else None
-    return cpp, deaths, lean
+def expand_hist(line, ans):
+    """A history `hist …` answered `ok rec | rec | …` -> one (synthetic plain case, harness-style answer) per
+    evaluation: the evaluator must behave as a function of the data AT CALL TIME, so every evaluation of a
+    history is judged (model, oracle) exactly like a one-shot case on the rows / classes / counters the
+    dataframe held at that moment."""
+    t = line.split()
+    cls, kind, fast, xslot, prog = t[1] == "cls", t[2], t[3], t[4], t[5]
+    out = []
+    for j, rec in enumerate(ans[2:].strip().split(" | ")):
+        r = rec.split()
+        if not r or r[0].startswith("skip"):
+            out.append((None, rec.strip(), j))
+            continue
+        try:
+            db = r.index("dbefore")
+            if cls:
+                li = r.index("labels")
+                labels = r[li + 1:db]
+                n = len(labels)
+                before = r[db + 1:db + 1 + n]
+                body = "".join(f" {labels[i]} 0 0 {before[i]}" for i in range(n))
+                pl = f"{'clsf' if fast == '1' else 'cls'} {kind} {xslot} {prog} {n}" + body
+                pa = "ok " + " ".join(r[:db] + r[db + 1 + n:])
+            else:
+                ti, oi = r.index("targets"), r.index("outs")
+                targets = r[ti + 1:db]
+                n = len(targets)
+                before = r[db + 1:db + 1 + n]
+                body = "".join(f" {targets[i]} 0 0 {before[i]}" for i in range(n))
+                pl = f"reg {kind} {fast} {prog} {n}" + body
+                pa = "ok " + " ".join(r[:ti] + r[oi:])
+        except ValueError:
+            out.append((None, "malformed " + rec[:100], j))
+            continue
+        out.append((pl, pa, j))
+    return out
+
+
+def run_model(reqs, drv_ok):
+    if not drv_ok:
+        return None
+    idx = [i for i, r in enumerate(reqs) if r is not None]
+    ans = C.run_driver("c05_driver", [reqs[i] for i in idx])
+    lean = [None] * len(reqs)
+    for k, i in enumerate(idx):
+        lean[i] = ans[k] if k < len(ans) else None
+    return lean
+
+
+def big_oracle(line, cpp):
+    """scale-directed cases: a handful of wrong examples among 1e5 … 1e6 must still be counted"""
+    t, c = line.split(), cpp.split()
+    kind, fast, n, k = t[1], t[2] == "1", int(t[4]), int(t[5])
+    pos = sorted(int(x) for x in t[6:6 + k])
+    name = {"dyn": "dyn_slot", "gau": "gaussian", "bin": "binary"}.get(kind, kind)
+    tags = {"evaluator": name, "scale": n}
+    if c[:2] != ["ok", "fit"]:
+        return [(f"{name}_evaluator on {n} examples: answer {cpp[:100]}", dict(tags, kind="shape"))]
+    fit = untok(c[2])
+    moved = int(c[c.index("moved") + 1])
+    rows = [int(x) for x in c[c.index("rows") + 1:]]
+    cls = kind in ("dyn", "gau", "bin")
+    step = 5 if (fast and not cls) else 1
+    vis = [p for p in pos if p % step == 0 and p + step <= n]
+    nvis = n // step
+    bad = []
+    if fit != fit or fit > 0:
+        bad.append((f"{name}_evaluator on {n} examples returned {fit!r}", dict(tags, kind="nan" if fit != fit else "positive")))
+        return bad
+    if cls:
+        want = -float(len(vis))
+        tol = 1e-6 if kind == "gau" else 0.0
+    else:
+        if kind == "rmae":
+            errs = [200.0 * 1.0 / (abs(float(p % 7) - 3.0) + abs(float(p % 7) - 3.0 + 1.0)) for p in vis]
+        else:
+            errs = [1.0 for _ in vis]
+        want = -math.fsum(errs) / nvis
+        tol = 1e-9 * abs(want)
+    if abs(fit - want) > tol:
+        bad.append((f"{name}_evaluator{'.fast' if fast else ''} on {n} examples of which {len(vis)} are wrong returned {fit!r}; "
+                    f"documented {want!r}", dict(tags, kind="scale-fitness")))
+    if moved != len(vis) or rows[:20] != vis[:20]:
+        bad.append((f"{name}_evaluator{'.fast' if fast else ''} on {n} examples: the difficulty counter moved on {moved} rows "
+                    f"{rows[:8]}, the wrong examples are {vis[:8]}", dict(tags, kind="scale-difficulty")))
+    return bad
 
 
 def shrink(exe, line, still_fails):
@@ -807,28 +962,51 @@ def run(chk, replay=None):
         chk.cov["corpus_cases"] = len(lines)
         lines += gen_cases(chk, rng)
 
-    cpp, deaths, lean = evaluate(exe, lines, drv_ok)
+    if not replay:
+        lines += big_cases(chk, rng, searching=bool(broken))
+    cpp, deaths = C.run_lines(exe, lines)
     for idx, rc, se in deaths:
         chk.violation("harness died (rc=%d) on: %s\n%s" % (rc, lines[idx][:300], se[-1500:]),
                       {"line": lines[idx]}, tags={"evaluator": lines[idx].split()[1], "kind": "crash"})
 
-    ndis = 0
-    ngen = 0
-    reported = set()
+    # units: one per plain case, one per evaluation of a history
+    units = []
     for i, line in enumerate(lines):
         if i >= len(cpp):
             break
+        if line.startswith("hist ") and cpp[i].startswith("ok"):
+            chk.count("case:hist:" + line.split()[2])
+            chk.seen(line)
+            for pl, pa, j in expand_hist(line, cpp[i]):
+                if pl is None:
+                    chk.count("hist_eval:" + pa.split()[0])
+                    if not pa.startswith("skip"):
+                        broken.append(f"harness answered `{pa[:200]}` inside `{line[:200]}`")
+                    continue
+                chk.count("hist_eval:judged")
+                if j > 0:
+                    chk.count("hist_eval:after_a_change_of_the_dataframe")
+                units.append((i, pl, pa, j))
+        else:
+            units.append((i, line, cpp[i], None))
+    lean = run_model([lean_request(pl, pa) if not (pa.startswith("died") or pa == "skipped") else None
+                      for _, pl, pa, _ in units], drv_ok)
+
+    ndis = 0
+    ngen = 0
+    reported = set()
+    for u, (i, line, c, hj) in enumerate(units):
         t = line.split()
-        c = cpp[i]
         if c.startswith("died") or c == "skipped":
             continue
-        key = t[0] + ":" + (t[1] if t[0] in ("reg", "cls", "clsf", "tev") else t[2] if t[0] == "con" else
-                            t[3] if t[0] == "conp" else t[4] if t[0] == "gac" else "")
-        chk.count("case:" + key)
-        chk.seen(line, nontrivial=t[0] not in ("small",))
+        if hj is None:
+            key = t[0] + ":" + (t[1] if t[0] in ("reg", "cls", "clsf", "tev", "big") else t[2] if t[0] == "con" else
+                                t[3] if t[0] == "conp" else t[4] if t[0] == "gac" else "")
+            chk.count("case:" + key)
+            chk.seen(line, nontrivial=t[0] not in ("small",))
         if not c.startswith("ok") and t[0] != "small":
             chk.count("harness:" + c.split()[0])
-            broken.append(f"harness answered `{c[:200]}` to `{line[:200]}`")
+            broken.append(f"harness answered `{c[:200]}` to `{lines[i][:200]}`")
             continue
         # ---- distribution (measured) ----
         ostats = {}
@@ -871,7 +1049,9 @@ def run(chk, replay=None):
             if not math.isfinite(untok(t[1])):
                 chk.count("nonfinite_objective:" + t[0])
         # ---- the property's own oracle ----
-        verdicts = oracle(line, c, ostats)
+        verdicts = big_oracle(line, c) if t[0] == "big" else oracle(line, c, ostats)
+        if t[0] == "big":
+            chk.count("scale:%s" % t[4])
         if t[0] in ("cls", "clsf") and "doc" in ostats:
             # what the classification cases exercised (measured on the outputs of the real programs)
             doc, gs, mouts = ostats["doc"], ostats["gauss"], ostats["mouts"]
@@ -904,7 +1084,13 @@ def run(chk, replay=None):
                 continue
             reported.add(sig)
             small = line
-            if not replay:
+            if hj is not None:
+                # an evaluation inside a history: the replay is the whole history
+                small, ans = lines[i], cpp[i]
+                what = (f"evaluation #{hj + 1} of a history in which the dataframe changes under one evaluator object "
+                        f"(the evaluator must score the data it holds at call time): " + what)
+                tags = dict(tags, history=True)
+            elif not replay and t[0] != "big":
                 small = shrink(exe, line, lambda l, a, s=sig: any((tg.get("evaluator"), tg.get("kind")) == s
                                                                  for _, tg in oracle(l, a)))
                 a2, _ = C.run_lines(exe, [small])
@@ -917,30 +1103,48 @@ def run(chk, replay=None):
                                  "how": "echo '<line>' | build/asan/c05_eval   (or check.py C05 --replay <this file>)"},
                           tags=tags)
         # ---- model vs code ----
-        if lean is not None and lean[i] is not None:
+        if lean is not None and lean[u] is not None:
             want = cpp_canon(line, c)
-            mod, sep, genans = lean[i].partition(" ;; ")
+            mod, sep, genans = lean[u].partition(" ;; ")
             mod = mod.strip()
             # lines that do not involve the functors carry no generated part
             genans = want.strip() if not sep else (mod if genans.strip() == "=" else genans.strip())
             if mod != want.strip():
                 ndis += 1
                 if ndis <= 3:
-                    broken.append(f"model and compiled evaluator disagree on `{line[:400]}`: "
+                    broken.append(f"model and compiled evaluator disagree on `{(lines[i] if hj is not None else line)[:400]}`"
+                                  f"{' (evaluation #%d of the history)' % (hj + 1) if hj is not None else ''}: "
                                   f"model `{mod[:300]}`, code `{want[:300]}`")
             if genans != want.strip():
                 ngen += 1
                 if ngen <= 2:
                     broken.append(f"the terms generated from the clang AST (Vita/C05/Gen.lean) and the compiled functors "
                                   f"disagree on `{line[:400]}`: generated `{genans[:300]}`, code `{want[:300]}`")
-        if i % 397 == 0:
+        if u % 397 == 0:
             chk.sample({"case": line[:160], "code": cpp_canon(line, c)[:120],
-                        "model ;; generated": (lean[i][:120] if lean and lean[i] else None)})
+                        "model ;; generated": (lean[u][:120] if lean and lean[u] else None)})
     chk.cov["model_vs_code_disagreements"] = ndis
     chk.cov["generated_terms_vs_code_disagreements"] = ngen
     chk.cov["cases"] = len(lines)
 
     concrete = [v for v in chk.violations if not v[2]]
+    if broken and not concrete and not chk.known_hit and not replay and chk.tier == "quick":
+        # SEARCH PHASE: something no longer checks and nothing concrete was found – the directed large datasets
+        extra = big_cases(chk, rng, searching=True)
+        ans, _ = C.run_lines(exe, extra)
+        chk.cov["search_phase_cases"] = len(extra)
+        for l, a in zip(extra, ans):
+            if not a.startswith("ok"):
+                continue
+            for what, tags in big_oracle(l, a):
+                sig = (tags.get("evaluator"), tags.get("kind"))
+                if sig in reported:
+                    continue
+                reported.add(sig)
+                chk.violation(what, {"line": l, "harness_answer": a[:2000],
+                                     "how": "echo '<line>' | build/asan/c05_eval   (or check.py C05 --replay <this file>)"},
+                              tags=tags)
+        concrete = [v for v in chk.violations if not v[2]]
     if broken and not concrete and not chk.known_hit:
         for b in broken[:3]:
             chk.violation(b, {"broken": b, "searched": f"{len(lines)} evaluator runs judged by the property's own oracle "
